@@ -341,7 +341,11 @@ func gen(r *hv.Rng, i int, tier string) (string, hv.Val) {
 	npert := []int{0, 1, 1, 1, 2}[r.Intn(5)]
 	for k := 0; k < npert; k++ {
 		var name string
-		switch r.Intn(16) {
+		sel := r.Intn(16)
+		if !useTicket && r.Chance(1, 4) {
+			sel = 7
+		}
+		switch sel {
 		case 0: // client now offers a higher version: the connection runs above the session's version
 			if s.Vers < 0x0303 {
 				helloVers = s.Vers + uint16(r.Range(1, int(0x0303-s.Vers)))
@@ -390,10 +394,22 @@ func gen(r *hv.Rng, i int, tier string) (string, hv.Val) {
 			} else if len(cache) > 0 {
 				e := cache[0].(hv.L)
 				v := append([]byte(nil), hv.AsBytes(e[1])...)
-				if r.Bool() {
+				switch r.Intn(4) {
+				case 0:
 					v = v[:r.Intn(len(v))]
-				} else {
+				case 1:
 					v = append(v, 0)
+				default:
+					// one bit of a header / length field: version, suite, master secret length, certificate
+					// count, first certificate length
+					ml := int(v[4])<<8 | int(v[5])
+					cand := []int{0, 1, 2, 3, 4, 5, 6 + ml, 7 + ml, 8 + ml, 9 + ml, 10 + ml, 11 + ml}
+					pos := cand[r.Intn(len(cand))]
+					if pos < len(v) {
+						v[pos] ^= 1 << uint(r.Intn(3))
+					} else {
+						v = v[:len(v)-1]
+					}
 				}
 				cache[0] = hv.L{e[0], hv.B(v)}
 				name = "cache-corrupt"
